@@ -8,14 +8,15 @@ code IS the textbook scheme statement by statement; it does not establish the lo
 from fractions import Fraction as Fr
 
 from .common import *
-from ..interp import Ref, DimV, UNIT, Unit, StrV
+from ..interp import BoolV, Ref, DimV, UNIT, Unit, StrV
 from .c13 import is_for
 
 
 class ArrV:
     """an ndarray (Array1 / Array2) seen through its element reads and writes"""
-    def __init__(self, name):
+    def __init__(self, name, init=None):
         self.name = name
+        self.init = init
 
     def __repr__(self):
         return "Arr(%s)" % self.name
@@ -58,6 +59,7 @@ class LoopInterp(Interp):
         self.updates = []     # dict(frames, target, idx, rhs)
         self.events = []      # whole-array operations
         self.loop_counter = 0
+        self.n_arrays = 0
         self.loop_ids = {}
         self.scalar_mode = True
 
@@ -110,8 +112,21 @@ class LoopInterp(Interp):
             self.events.append((tuple(self.frames), name, a0.name, ""))
             return ArrV("%s.%s" % (a0.name, name))
         if name in ("zeros", "eye", "ones") and "ndarray" in (path + ipath):
-            self.loop_counter += 0
-            return ArrV("new:%s" % name)
+            self.n_arrays += 1
+            return ArrV("new%d" % self.n_arrays, init=name)
+        if isinstance(a0, Rec) and a0.adt.startswith("std::Range") and name == "collect":
+            self.n_arrays += 1
+            return ArrV("new%d" % self.n_arrays, init=("iota", unref(a0.f["start"]).v.show(), unref(a0.f["end"]).v.show()))
+        if isinstance(a0, Rec) and a0.adt.startswith("std::Range") and name == "map" and len(args) == 2:
+            return Rec("std::MapRange", {"range": a0, "f": args[1]})
+        if isinstance(a0, Rec) and a0.adt == "std::MapRange" and name in ("product", "sum"):
+            rng = a0.f["range"]
+            k = Sc(Poly.var("k"))
+            val = unref(self.call_closure(unref(a0.f["f"]), [k], e))
+            if not isinstance(val, Sc):
+                self.unsupported("mapped range element", e)
+            from ..interp import fn_n
+            return Sc(fn_n(self.dom, "%s_over_k" % name, val.v, unref(rng.f["start"]).v, unref(rng.f["end"]).v))
         if isinstance(a0, Rec) and a0.adt in ("std::Range", "std::RangeInclusive") and name == "rev":
             return Rec(a0.adt, dict(a0.f, rev=BoolV(True)))
         if name == "into_iter" and isinstance(a0, Rec) and a0.adt.startswith("std::Range"):
@@ -120,6 +135,9 @@ class LoopInterp(Interp):
 
     def binop(self, op, a, b, c, e):
         ua, ub = unref(a), unref(b)
+        if op == "%" and isinstance(ua, Sc) and isinstance(ub, Sc):
+            from ..interp import fn_n
+            return Sc(fn_n(self.dom, "rem", ua.v, ub.v))
         if isinstance(ua, ArrV) or isinstance(ub, ArrV):
             self.events.append((tuple(self.frames), "binop" + op, repr(ua), repr(ub)))
             return ua if isinstance(ua, ArrV) else ub
@@ -166,36 +184,78 @@ class LoopInterp(Interp):
         raise BreakEx()
 
     def compare(self, op, a, b):
-        # comparisons of loop symbols with themselves are decided; everything else is a free decision
+        # comparisons of index expressions that differ by a constant are decided; everything else is a free decision
+        try:
+            diff = a.v - b.v
+            c = diff.const_value()
+            idx_only = all(at[0] == "v" and not at[2] and (at[1] == "n" or at[1].startswith("v")) for at in list(a.v.atoms()) + list(b.v.atoms()))
+        except Exception:
+            c, idx_only = None, False
+        if c is not None and idx_only:
+            return BoolV({"==": c == 0, "!=": c != 0, "<": c < 0, "<=": c <= 0, ">": c > 0, ">=": c >= 0}[op])
         return Interp.compare(self, op, a, b)
 
 
-def updates_of(F, body, args_fn, max_paths=256):
-    """all recorded updates over all paths: list of dict(frames, arr, idx, rhs)"""
-    all_updates = []
-    events = []
-
+def updates_of(F, body, args_fn, max_paths=256, roles=None):
+    """evaluate all paths; returns (updates, events, paths) where arrays are renamed by ROLE (what the function returns / stores:
+    roles(value) -> {array name: role}); paths = [dict(ctx, value, updates)]"""
     from .. import walk as _walk
     loop_ids = {}
     for node in _walk.walk_body(body):
         if is_for(node) and node["scrut"].get("k") == "call" and (_walk.callee_of(node["scrut"]) or {}).get("name") == "into_iter":
             loop_ids[id(node)] = len(loop_ids)
+    paths = []
 
     def thunk(ctx):
         it = LoopInterp(F, ctx)
         it.loop_ids = loop_ids
+        v = None
         try:
-            return it.call_body(body, args_fn())
+            v = it.call_body(body, args_fn())
+            return v
         finally:
-            all_updates.extend(it.updates)
-            events.extend(it.events)
+            paths.append({"ctx": ctx, "value": v, "updates": it.updates, "events": it.events})
     explore(thunk, max_paths=max_paths)
-    # dedupe
+    all_updates, events = [], []
+    inits = {}
+    for p in paths:
+        rmap = roles(p["value"]) if (roles and p["value"] is not None) else {}
+        p["roles"] = rmap
+
+        def ren_poly(q):
+            def f(a):
+                if a[0] == "v" and a[1] in rmap:
+                    return Poly.atom(("v", rmap[a[1]], a[2]))
+                return None
+            return q.subst(f)
+        for u in p["updates"]:
+            u["arr"] = rmap.get(u["arr"], u["arr"])
+            u["rhs"] = ren_poly(u["rhs"])
+        all_updates += p["updates"]
+        events += p["events"]
     seen = {}
     for u in all_updates:
         k = (u["frames"], u["arr"], u["idx"], u["rhs"].key())
         seen.setdefault(k, u)
-    return list(seen.values()), events
+    return list(seen.values()), events, paths
+
+
+def arr_names(v, out):
+    v = unref(v)
+    if isinstance(v, ArrV):
+        out.append(v)
+    elif isinstance(v, Tup):
+        for x in v.vs:
+            arr_names(x, out)
+    elif isinstance(v, Rec):
+        for x in v.f.values():
+            arr_names(x, out)
+    elif hasattr(v, "v") and not isinstance(v, Sc):
+        try:
+            arr_names(v.v, out)
+        except Exception:
+            pass
+    return out
 
 
 def A(name, *idx):
@@ -235,6 +295,26 @@ def expect(chk, key, rule, F, body, updates, wanted, arrays):
            required="the update statements of the textbook scheme (and no others on %s)" % sorted(arrays))
 
 
+def role_map(pairs):
+    """pairs: list of (value, role) -> {array name: role}"""
+    m = {}
+    for v, role in pairs:
+        v = unref(v)
+        if isinstance(v, ArrV):
+            m[v.name] = role
+    return m
+
+
+def lu_roles(v):
+    v = unref(v)
+    from ..interp import Res
+    if isinstance(v, Res) and v.ok:
+        v = unref(v.v)
+    if isinstance(v, Rec) and v.adt == "LU":
+        return role_map([(v.f.get("a"), "A"), (v.f.get("p"), "P")])
+    return {}
+
+
 def run_loops(chk, F):
     fns = {b["path"]: b for b in F.bodies.values() if b["path"].startswith("linalg::")}
 
@@ -248,23 +328,63 @@ def run_loops(chk, F):
         chk.undecide("loops|lu-new", "missing anchor")
     else:
         try:
-            ups, ev = updates_of(F, body, lambda: [ArrV("a")])
-            f1 = ("v1", "0", n, False)
-            wanted = [
-                ("new:zeros", ("v0",), A("v0"), [("v0", "0", n, False)]),
-                # row exchange with the row v2 found by the pivot search (whole rows)
-                ("a", ("v1", "v3"), A("a", "v2", "v3"), [f1, ("v3", "0", n, False)]),
-                ("a", ("v2", "v3"), A("a", "v1", "v3"), [f1, ("v3", "0", n, False)]),
-                ("new:zeros", ("v1",), A("new:zeros", "v2"), [f1]),
-                ("new:zeros", ("v2",), A("new:zeros", "v1"), [f1]),
-                # Doolittle elimination
-                ("a", ("v4", "v1"), A("a", "v4", "v1") * A("a", "v1", "v1").recip(), [f1, ("v4", "1 + v1", n, False)]),
-                ("a", ("v4", "v5"), A("a", "v4", "v5") - A("a", "v4", "v1") * A("a", "v1", "v5"),
-                 [f1, ("v4", "1 + v1", n, False), ("v5", "1 + v1", n, False)]),
-            ]
-            expect(chk, "loops|lu-new", "LU::new is Doolittle elimination with partial pivoting, statement by statement: whole-row "
-                   "exchange with the pivot row, l_ji = a_ji / a_ii, a_jk -= l_ji a_ik for j, k > i", F, body, ups, wanted, {"a", "new:zeros"})
-            chk.count("loop-body update statements checked", len(wanted))
+            ups, ev, paths = updates_of(F, body, lambda: [ArrV("A")], roles=lu_roles)
+            # the loop symbols: outer pivot loop = the loop that encloses the elimination updates
+            elim = [u for u in ups if u["arr"] == "A" and len(u["frames"]) == 3]
+            if not elim:
+                chk.ob("loops|lu-new", False, "LU::new eliminates below the pivot", body_loc(F, body), found=describe(ups)[:4])
+            else:
+                vi, vj, vk = (f[0] for f in elim[0]["frames"])
+                f1 = (vi, "0", n, False)
+                fj = (vj, "1 + " + vi, n, False)
+                fk = (vk, "1 + " + vi, n, False)
+                # row of the maximum: the loop symbol of the pivot search (a loop over vi..n inside the pivot loop)
+                swaps = [u for u in ups if u["arr"] == "A" and len(u["frames"]) == 2 and u["frames"][0][0] == vi and u["idx"][0] == vi]
+                wanted = [
+                    ("A", (vj, vi), A("A", vj, vi) * A("A", vi, vi).recip(), [f1, fj]),
+                    ("A", (vj, vk), A("A", vj, vk) - A("A", vj, vi) * A("A", vi, vk), [f1, fj, fk]),
+                ]
+                vm = None
+                if swaps:
+                    vc = swaps[0]["frames"][1][0]
+                    src = [a for a in swaps[0]["rhs"].atoms() if a[0] == "v" and a[1] == "A"]
+                    if len(src) == 1:
+                        vm = src[0][2][0]
+                        fc = (vc, "0", n, False)
+                        wanted += [("A", (vi, vc), A("A", vm, vc), [f1, fc]), ("A", (vm, vc), A("A", vi, vc), [f1, fc]),
+                                   ("P", (vi,), A("P", vm), [f1]), ("P", (vm,), A("P", vi), [f1])]
+                # initial permutation: identity (explicit loop or (0..n).collect())
+                p_iota = any(isinstance(unref(pp["value"]), object) and any(
+                    getattr(a, "init", None) == ("iota", "0", n) and pp["roles"].get(a.name) == "P" for a in arr_names(pp["value"], []))
+                    for pp in paths if pp["value"] is not None)
+                init_updates = [u for u in ups if u["arr"] == "P" and len(u["frames"]) == 1 and u["frames"][0][1:] == ("0", n, False)
+                                and u["idx"] == (u["frames"][0][0],) and equal(u["rhs"], A(u["frames"][0][0]))]
+                for u in init_updates:
+                    wanted.append(("P", u["idx"], u["rhs"], list(u["frames"])))
+                expect(chk, "loops|lu-new", "LU::new is Doolittle elimination with partial pivoting, statement by statement: whole-row "
+                       "exchange with the pivot row, l_ji = a_ji / a_ii, a_jk -= l_ji a_ik for j, k > i", F, body, ups, wanted, {"A", "P"})
+                chk.ob("loops|lu-new|row-exchange", vm is not None, "the pivot row found by the search is exchanged with row i over all columns",
+                       body_loc(F, body), found=describe(swaps)[:2], nontrivial=False)
+                chk.ob("loops|lu-new|identity-permutation", bool(p_iota or init_updates), "the permutation starts as the identity",
+                       body_loc(F, body), found="iota" if p_iota else describe(init_updates)[:1], nontrivial=False)
+                # pairing per path: row exchange, permutation exchange and the parity counter move together
+                bad = []
+                for pp in paths:
+                    v = unref(pp["value"])
+                    from ..interp import Res
+                    if not (isinstance(v, Res) and v.ok):
+                        continue
+                    lu = unref(v.v)
+                    pc = unref(lu.f.get("p_count"))
+                    inc = isinstance(pc, Sc) and equal(pc.v, Poly.sym("n") + 1)
+                    same = isinstance(pc, Sc) and equal(pc.v, Poly.sym("n"))
+                    rowx = any(u["arr"] == "A" and len(u["frames"]) == 2 and u["idx"][0] != u["frames"][1][0] for u in pp["updates"])
+                    perx = any(u["arr"] == "P" and len(u["frames"]) == 1 and u["frames"][0][0] == vi for u in pp["updates"])
+                    if not ((rowx and perx and inc) or (not rowx and not perx and same)):
+                        bad.append("row exchange %s, permutation exchange %s, parity counter %s" % (rowx, perx, pc.v.show() if isinstance(pc, Sc) else pc))
+                chk.ob("loops|lu-new|pairing", not bad, "on every path the row exchange, the permutation exchange and the parity counter "
+                       "(+1 per exchange, starting at n) are updated together", body_loc(F, body), found=sorted(set(bad))[:3] or "%d paths consistent" % len(paths))
+                chk.count("loop-body update statements checked", len(wanted))
         except Unsupported as ex:
             chk.undecide("loops|lu-new", "unsupported: %s" % ex, body_loc(F, body))
     # ------------------------------------------------------------------ solve
@@ -273,16 +393,22 @@ def run_loops(chk, F):
         chk.undecide("loops|lu-solve", "missing anchor")
     else:
         try:
-            ups, ev = updates_of(F, body, lambda: [lu_self(), ArrV("b")])
-            x = "new:zeros"
-            wanted = [
-                (x, ("v0",), A("b", "self.p[v0]"), [("v0", "0", n, False)]),
-                (x, ("v0",), A(x, "v0") - A("self.a", "v0", "v1") * A(x, "v1"), [("v0", "0", n, False), ("v1", "0", "v0", False)]),
-                (x, ("v2",), A(x, "v2") - A("self.a", "v2", "v3") * A(x, "v3"), [("v2", "0", n, True), ("v3", "1 + v2", n, False)]),
-                (x, ("v2",), A(x, "v2") * A("self.a", "v2", "v2").recip(), [("v2", "0", n, True)]),
-            ]
+            ups, ev, paths = updates_of(F, body, lambda: [lu_self(), ArrV("b")], roles=lambda v: role_map([(v, "X")]))
+            xs = sorted({u["frames"][0][0] for u in ups if u["arr"] == "X"})
+            fw = [u for u in ups if u["arr"] == "X" and len(u["frames"]) == 2 and not u["frames"][0][3]]
+            bw = [u for u in ups if u["arr"] == "X" and len(u["frames"]) == 2 and u["frames"][0][3]]
+            wanted = []
+            if fw and bw:
+                v0, v1 = fw[0]["frames"][0][0], fw[0]["frames"][1][0]
+                v2, v3 = bw[0]["frames"][0][0], bw[0]["frames"][1][0]
+                wanted = [
+                    ("X", (v0,), A("b", "self.p[%s]" % v0), [(v0, "0", n, False)]),
+                    ("X", (v0,), A("X", v0) - A("self.a", v0, v1) * A("X", v1), [(v0, "0", n, False), (v1, "0", v0, False)]),
+                    ("X", (v2,), A("X", v2) - A("self.a", v2, v3) * A("X", v3), [(v2, "0", n, True), (v3, "1 + " + v2, n, False)]),
+                    ("X", (v2,), A("X", v2) * A("self.a", v2, v2).recip(), [(v2, "0", n, True)]),
+                ]
             expect(chk, "loops|lu-solve", "solve is forward substitution with the unit lower factor on the permuted right-hand side followed "
-                   "by back substitution with division by the pivots", F, body, ups, wanted, {x})
+                   "by back substitution with division by the pivots", F, body, ups, wanted or [("X", ("?",), Poly(), [])], {"X"})
             chk.count("loop-body update statements checked", len(wanted))
         except Unsupported as ex:
             chk.undecide("loops|lu-solve", "unsupported: %s" % ex, body_loc(F, body))
@@ -292,21 +418,69 @@ def run_loops(chk, F):
         chk.undecide("loops|lu-inverse", "missing anchor")
     else:
         try:
-            ups, ev = updates_of(F, body, lambda: [lu_self()])
-            ia = "new:zeros"
-            f0 = ("v0", "0", n, False)
-            wanted = [
-                (ia, ("v1", "v0"), Poly.const(1), [f0, ("v1", "0", n, False)]),
-                (ia, ("v1", "v0"), Poly.const(0), [f0, ("v1", "0", n, False)]),
-                (ia, ("v1", "v0"), A(ia, "v1", "v0") - A("self.a", "v1", "v2") * A(ia, "v2", "v0"), [f0, ("v1", "0", n, False), ("v2", "0", "v1", False)]),
-                (ia, ("v3", "v0"), A(ia, "v3", "v0") - A("self.a", "v3", "v4") * A(ia, "v4", "v0"), [f0, ("v3", "0", n, True), ("v4", "1 + v3", n, False)]),
-                (ia, ("v3", "v0"), A(ia, "v3", "v0") * A("self.a", "v3", "v3").recip(), [f0, ("v3", "0", n, True)]),
-            ]
+            ups, ev, paths = updates_of(F, body, lambda: [lu_self()], roles=lambda v: role_map([(v, "IA")]))
+            fw = [u for u in ups if u["arr"] == "IA" and len(u["frames"]) == 3 and not u["frames"][1][3]]
+            bw = [u for u in ups if u["arr"] == "IA" and len(u["frames"]) == 3 and u["frames"][1][3]]
+            wanted = []
+            if fw and bw:
+                vc, v1, v2 = (f[0] for f in fw[0]["frames"])
+                _, v3, v4 = (f[0] for f in bw[0]["frames"])
+                f0 = (vc, "0", n, False)
+                wanted = [
+                    ("IA", (v1, vc), Poly.const(1), [f0, (v1, "0", n, False)]),
+                    ("IA", (v1, vc), Poly.const(0), [f0, (v1, "0", n, False)]),
+                    ("IA", (v1, vc), A("IA", v1, vc) - A("self.a", v1, v2) * A("IA", v2, vc), [f0, (v1, "0", n, False), (v2, "0", v1, False)]),
+                    ("IA", (v3, vc), A("IA", v3, vc) - A("self.a", v3, v4) * A("IA", v4, vc), [f0, (v3, "0", n, True), (v4, "1 + " + v3, n, False)]),
+                    ("IA", (v3, vc), A("IA", v3, vc) * A("self.a", v3, v3).recip(), [f0, (v3, "0", n, True)]),
+                ]
             expect(chk, "loops|lu-inverse", "inverse solves A X = I column by column with the same substitution scheme as solve "
-                   "(right-hand side: the permuted unit vector)", F, body, ups, wanted, {ia})
-            chk.count("loop-body update statements checked", len(wanted))
+                   "(right-hand side: the permuted unit vector)", F, body, ups, wanted or [("IA", ("?",), Poly(), [])], {"IA"})
+            # the unit right-hand side is the PERMUTED identity: entry (i, j) is one exactly when p[i] == j
+            rhs_ok = False
+            if wanted:
+                for pp in paths:
+                    ones = [u for u in pp["updates"] if u["arr"] == "IA" and u["rhs"].const_value() == 1]
+                    conds = [d for (k, d, b, f) in pp["ctx"].trace if b]
+                    if ones and any(d.replace(" ", "") == ("self.p[%s]==%s" % (v1, vc)) for d in conds):
+                        rhs_ok = True
+            chk.ob("loops|lu-inverse|rhs", rhs_ok, "the right-hand side of column j is e_{i : p[i] = j} (row i of the permuted identity)",
+                   body_loc(F, body), found="unit entries set under: %s" % sorted({d for pp in paths for (k, d, b, f) in pp["ctx"].trace if b})[:3],
+                   required="p[i] == j")
+            chk.count("loop-body update statements checked", len(wanted) + 1)
         except Unsupported as ex:
             chk.undecide("loops|lu-inverse", "unsupported: %s" % ex, body_loc(F, body))
+    # ------------------------------------------------------------------ determinant
+    body = get("::determinant")
+    if body is None:
+        chk.undecide("loops|lu-determinant", "missing anchor")
+    else:
+        try:
+            ups, ev, paths = updates_of(F, body, lambda: [lu_self()])
+            from ..interp import fn_n
+            det = fn_n(DOMK, "product_over_k", A("self.a", "k", "k"), Poly.const(0), Poly.sym("n"))
+            par = fn_n(DOMK, "rem", A("self.p_count") - Poly.sym("n"), Poly.const(2))
+            ok = len(paths) == 2
+            found = []
+            for pp in paths:
+                v = unref(pp["value"])
+                tr = [(d, b) for (k, d, b, f) in pp["ctx"].trace]
+                found.append("%s -> %s" % (tr, v.v.show()[:80] if isinstance(v, Sc) else v))
+                if not isinstance(v, Sc) or len(tr) != 1:
+                    ok = False
+                    continue
+                key = pp["ctx"].trace[0][0]
+                even = None
+                if key[0] == "cmp" and key[1] == "==" and key[2] == par.key() and key[3] == Poly.const(0).key():
+                    even = tr[0][1]
+                elif key[0] == "cmp" and key[1] == "==" and key[2] == par.key() and key[3] == Poly.const(1).key():
+                    even = not tr[0][1]
+                if even is None or not equal(v.v, det if even else -det):
+                    ok = False
+            chk.ob("loops|lu-determinant", ok, "the determinant is the product of the pivots, negated exactly when the number of row "
+                   "exchanges (p_count - n) is odd", body_loc(F, body), found=found, required="(p_count - n) % 2 == 0 ? det : -det")
+            chk.count("loop-body update statements checked", 1)
+        except Unsupported as ex:
+            chk.undecide("loops|lu-determinant", "unsupported: %s" % ex, body_loc(F, body))
     # ------------------------------------------------------------------ Jacobi rotations
     body = get("jacobi_eigenvalue")
     if body is None:
@@ -319,83 +493,138 @@ def lu_self():
     return Rec("LU", {"a": ArrV("self.a"), "p": ArrV("self.p"), "p_count": Sc(Poly.var("self.p_count")), "f": PHANTOM})
 
 
+def jacobi_roles(v):
+    v = unref(v)
+    if isinstance(v, Tup) and len(v.vs) == 2:
+        return role_map([(v.vs[0], "D"), (v.vs[1], "V")])
+    return {}
+
+
 def jacobi(chk, F, body):
     try:
-        ups, ev = updates_of(F, body, lambda: [ArrV("a"), Sc(Poly.var("max_iter"))], max_paths=512)
+        ups, ev, paths = updates_of(F, body, lambda: [ArrV("A"), Sc(Poly.var("max_iter"))], max_paths=512, roles=jacobi_roles)
     except Unsupported as ex:
         chk.undecide("loops|jacobi", "unsupported: %s" % ex, body_loc(F, body))
         return
-    # the rotation parameter t takes two forms (small-angle shortcut and the stable root); for each t found in the recorded
-    # updates of d[p] the four rotation loops must apply  g' = g - s (h + g tau),  h' = h + s (g - h tau)
-    # with c = 1/sqrt(t^2+1), s = t c, tau = s/(1+c)  (Numerical Recipes, `jacobi`)
-    P, Q = "v3", "v4"   # loop symbols of `for p in 0..n` / `for q in p+1..n` (pre-order numbering of the loops)
-    apq = A("a", P, Q)
-    in_sweep = lambda u: len(u["frames"]) == 3 and u["frames"][-1][0] == Q and u["frames"][-2][0] == P
-    ups = [u for u in ups if in_sweep(u) or (len(u["frames"]) == 4 and u["frames"][2][0] == Q)]
-    d_updates = [u for u in ups if u["arr"] == "a.diag" and u["idx"] == (P,)]
+    n = "n"
+    # the sweep: updates of D nested in (iteration, p, q) loops identify the loop symbols
+    sweep = [u for u in ups if u["arr"] == "D" and len(u["frames"]) == 3]
+    if not sweep:
+        chk.ob("loops|jacobi|t", False, "the sweep updates the diagonal", body_loc(F, body), found=describe(ups)[:3])
+        return
+    P, Q = sweep[0]["frames"][1][0], sweep[0]["frames"][2][0]
+    qf = sweep[0]["frames"][2]
+    chk.ob("loops|jacobi|sweep-range", qf[1] == "1 + " + P and qf[2] == n and sweep[0]["frames"][1][1:] == ("0", n, False),
+           "a sweep visits every pair p < q", body_loc(F, body), found=[sweep[0]["frames"][1], qf], nontrivial=False)
+    apq = A("A", P, Q)
+    in_sweep = [u for u in ups if len(u["frames"]) >= 3 and u["frames"][1][0] == P and u["frames"][2][0] == Q]
+    d_updates = [u for u in in_sweep if u["arr"] == "D" and u["idx"] == (P,) and len(u["frames"]) == 3]
     ts = []
     for u in d_updates:
-        # d[p] <- d[p] - t a_pq   =>  t = (d[p] - rhs) / a_pq
-        diff = A("a.diag", P) - u["rhs"]
-        t = diff * apq.recip()
+        t = (A("D", P) - u["rhs"]) * apq.recip()
         if not any(equal(t, x) for x in ts):
             ts.append(t)
-    theta = (A("a.diag", Q) - A("a.diag", P)) * Fr(1, 2) * apq.recip()
+    theta = (A("D", Q) - A("D", P)) * Fr(1, 2) * apq.recip()
     root = (theta * theta + 1).pow(E(Fr(1, 2)))
-    want_ts = [apq * (A("a.diag", Q) - A("a.diag", P)).recip(),
+    want_ts = [apq * (A("D", Q) - A("D", P)).recip(),
                (apply_fn("abs", theta) + root).recip(), -((apply_fn("abs", theta) + root).recip())]
-    ok_t = bool(ts) and all(any(equal(t, w) for w in want_ts) for t in ts) and len(ts) == 3
+    ok_t = len(ts) == 3 and all(any(equal(t, w) for w in want_ts) for t in ts)
     chk.ob("loops|jacobi|t", ok_t, "the rotation parameter is t = a_pq/(d_q - d_p) in the small-angle case and "
            "t = sgn(theta)/(|theta| + sqrt(theta^2 + 1)), theta = (d_q - d_p)/(2 a_pq), otherwise", body_loc(F, body),
            found=[t.show()[:120] for t in ts], required=[w.show()[:120] for w in want_ts])
-    n = "n"
-    loops = [
-        # (array, g index, h index, frames of the inner loop)
-        ("a", ("v5", P), ("v5", Q), ("v5", "0", P)),
-        ("a", (P, "v6"), ("v6", Q), ("v6", "1 + " + P, Q)),
-        ("a", (P, "v7"), (Q, "v7"), ("v7", "1 + " + Q, n)),
-        ("new:eye", ("v8", P), ("v8", Q), ("v8", "0", n)),
-    ]
-    n_ok = 0
+    # the four rotation loops: identified by their ranges
+    rot = {}
+    for u in in_sweep:
+        if len(u["frames"]) == 4 and u["arr"] in ("A", "V"):
+            f = u["frames"][3]
+            rot.setdefault((u["arr"], f[1], f[2]), f[0])
+    spec_loops = [("A", "0", P, lambda j: ((j, P), (j, Q))), ("A", "1 + " + P, Q, lambda j: ((P, j), (j, Q))),
+                  ("A", "1 + " + Q, n, lambda j: ((P, j), (Q, j))), ("V", "0", n, lambda j: ((j, P), (j, Q)))]
     problems = []
-    for t in ts:
-        c = (t * t + 1).pow(E(Fr(-1, 2)))
-        s = t * c
-        tau = s * (c + 1).recip()
-        for arr, gi, hi, fr in loops:
-            g, h = A(arr, *gi), A(arr, *hi)
-            wg = g - s * (h + g * tau)
-            wh = h + s * (g - h * tau)
-            okg = any(u["arr"] == arr and u["idx"] == gi and equal(u["rhs"], wg) for u in ups)
-            okh = any(u["arr"] == arr and u["idx"] == hi and equal(u["rhs"], wh) for u in ups)
+    n_ok = 0
+    for arr, lo, hi, idxf in spec_loops:
+        j = rot.get((arr, lo, hi))
+        if j is None:
+            problems.append("no rotation loop of %s over %s..%s" % (arr, lo, hi))
+            continue
+        gi, hi_ = idxf(j)
+        g, h = A(arr, *gi), A(arr, *hi_)
+        for t in ts:
+            c = (t * t + 1).pow(E(Fr(-1, 2)))
+            s_ = t * c
+            tau = s_ * (c + 1).recip()
+            wg = g - s_ * (h + g * tau)
+            wh = h + s_ * (g - h * tau)
+            okg = any(u["arr"] == arr and u["idx"] == gi and equal(u["rhs"], wg) for u in in_sweep)
+            okh = any(u["arr"] == arr and u["idx"] == hi_ and equal(u["rhs"], wh) for u in in_sweep)
             if okg and okh:
                 n_ok += 1
             else:
-                problems.append("%s%s / %s%s" % (arr, list(gi), arr, list(hi)))
-    chk.ob("loops|jacobi|rotations", bool(ts) and not problems, "all four rotation loops (rows above p, between p and q, beyond q, and the "
-           "eigenvector columns) apply g' = g - s(h + g tau), h' = h + s(g - h tau) with c = 1/sqrt(t^2+1), s = t c, tau = s/(1+c)",
-           body_loc(F, body), found="rotation loops not matching: %s" % sorted(set(problems)) if problems else "%d loop/t combinations match" % n_ok,
-           required="4 loops x %d forms of t" % len(ts))
-    # loop ranges of the four rotation loops
-    fr_ok = True
-    found_fr = []
-    for arr, gi, hi, fr in loops:
-        got = [f for u in ups if u["arr"] == arr and u["idx"] == gi for f in u["frames"] if f[0] == fr[0]]
-        found_fr.append(got[:1])
-        if not got or not all(f[1] == fr[1] and f[2] == fr[2] and not f[3] for f in got):
-            fr_ok = False
-    chk.ob("loops|jacobi|ranges", fr_ok, "the rotation loops cover j < p, p < j < q, j > q and all rows of the eigenvector matrix",
-           body_loc(F, body), found=found_fr, required=[l[3] for l in loops], nontrivial=False)
-    # the eigenvalue updates and the annihilated element
-    t_any = ts[0] if ts else None
+                problems.append("%s%s / %s%s over %s..%s" % (arr, list(gi), arr, list(hi_), lo, hi))
+    unexpected = [describe([u])[0][:120] for u in in_sweep if len(u["frames"]) == 4 and u["arr"] in ("A", "V")
+                  and (u["arr"], u["frames"][3][1], u["frames"][3][2]) not in {(a, l, h) for a, l, h, _ in spec_loops}]
+    chk.ob("loops|jacobi|rotations", bool(ts) and not problems and not unexpected,
+           "the rotation is applied to the rows above p, between p and q, beyond q and to the eigenvector columns, each as "
+           "g' = g - s(h + g tau), h' = h + s(g - h tau) with c = 1/sqrt(t^2+1), s = t c, tau = s/(1+c)", body_loc(F, body),
+           found=("not matching: %s" % sorted(set(problems))[:3] if problems else "") + ("unexpected: %s" % unexpected[:2] if unexpected else "") or
+           "%d loop/t combinations match" % n_ok, required="4 loops x %d forms of t" % len(ts))
+    # diagonal updates, accumulator and annihilated element
     diag_ok = bool(ts)
+    accs = sorted({u["arr"] for u in in_sweep if len(u["frames"]) == 3 and u["arr"] not in ("A", "D", "V")})
     for t in ts:
         hh = t * apq
-        diag_ok = diag_ok and any(u["arr"] == "a.diag" and u["idx"] == (P,) and equal(u["rhs"], A("a.diag", P) - hh) for u in ups) \
-            and any(u["arr"] == "a.diag" and u["idx"] == (Q,) and equal(u["rhs"], A("a.diag", Q) + hh) for u in ups) \
-            and any(u["arr"] == "new:zeros" and u["idx"] == (P,) and equal(u["rhs"], A("new:zeros", P) - hh) for u in ups) \
-            and any(u["arr"] == "new:zeros" and u["idx"] == (Q,) and equal(u["rhs"], A("new:zeros", Q) + hh) for u in ups)
-    zero_ok = any(u["arr"] == "a" and u["idx"] == (P, Q) and u["rhs"].is_zero_syntactic() for u in ups)
-    chk.ob("loops|jacobi|diagonal", diag_ok and zero_ok, "d_p -= t a_pq, d_q += t a_pq (accumulated in z as well) and a_pq is annihilated",
-           body_loc(F, body), found="diagonal updates ok: %s, a_pq <- 0: %s" % (diag_ok, zero_ok))
-    chk.count("loop-body update statements checked", 8 * max(1, len(ts)) + 5)
+        diag_ok = diag_ok and any(u["arr"] == "D" and u["idx"] == (P,) and equal(u["rhs"], A("D", P) - hh) for u in in_sweep) \
+            and any(u["arr"] == "D" and u["idx"] == (Q,) and equal(u["rhs"], A("D", Q) + hh) for u in in_sweep)
+        for z in accs:
+            diag_ok = diag_ok and any(u["arr"] == z and u["idx"] == (P,) and equal(u["rhs"], A(z, P) - hh) for u in in_sweep) \
+                and any(u["arr"] == z and u["idx"] == (Q,) and equal(u["rhs"], A(z, Q) + hh) for u in in_sweep)
+    zero_ok = any(u["arr"] == "A" and u["idx"] == (P, Q) and u["rhs"].is_zero_syntactic() for u in in_sweep)
+    chk.ob("loops|jacobi|diagonal", diag_ok and zero_ok, "d_p -= t a_pq, d_q += t a_pq (also in the per-sweep accumulator) and a_pq is annihilated",
+           body_loc(F, body), found="diagonal/accumulator updates ok: %s (accumulators %s), a_pq <- 0: %s" % (diag_ok, accs, zero_ok))
+    # the final ascending sort exchanges eigenvalue and eigenvector column together
+    sort_bad = []
+    n_sw = 0
+    for pp in paths:
+        dsw = [(u["idx"], tuple(sorted(a[2] for a in u["rhs"].atoms() if a[0] == "v"))) for u in pp["updates"]
+               if u["arr"] == "D" and len(u["frames"]) == 1 and not equal(u["rhs"], A("D", *u["idx"]))]
+        vsw = [u for u in pp["updates"] if u["arr"] == "V" and len(u["frames"]) == 2 and not equal(u["rhs"], A("V", *u["idx"]))]
+        if bool(dsw) != bool(vsw):
+            sort_bad.append("eigenvalue exchange %s without eigenvector exchange %s" % (bool(dsw), bool(vsw)))
+        if dsw and vsw:
+            n_sw += 1
+            cols_d = {i[0] for i, _ in dsw}
+            cols_v = {u["idx"][1] for u in vsw}
+            if cols_d != cols_v:
+                sort_bad.append("eigenvalues %s exchanged but eigenvector columns %s" % (sorted(cols_d), sorted(cols_v)))
+    chk.ob("loops|jacobi|sort", not sort_bad and n_sw > 0, "the final sort exchanges an eigenvector column whenever (and only when) it exchanges "
+           "the corresponding eigenvalue", body_loc(F, body), found=sorted(set(sort_bad))[:3] or "%d paths with consistent exchanges" % n_sw)
+    # ascending order: an exchange of d_m (m from the inner search loop) with d_k happens only under d_m < d_k
+    inv = {}
+    for pp in paths:
+        for nm, role in pp["roles"].items():
+            inv[role] = nm
+    asc_bad, n_asc = [], 0
+    for pp in paths:
+        dsw = [u for u in pp["updates"] if u["arr"] == "D" and len(u["frames"]) == 1 and not equal(u["rhs"], A("D", *u["idx"]))]
+        if len(dsw) != 2:
+            continue
+        k_sym = dsw[0]["frames"][0][0]
+        others = [u["idx"][0] for u in dsw if u["idx"][0] != k_sym]
+        if len(others) != 1:
+            asc_bad.append("exchange of %s in the pass of %s" % ([u["idx"] for u in dsw], k_sym))
+            continue
+        m_sym = others[0]
+        dn = inv.get("D", "D")
+        small, big = Poly.var(dn, (m_sym,)).key(), Poly.var(dn, (k_sym,)).key()
+        holds = False
+        for (key, d, b, f) in pp["ctx"].trace:
+            if key[0] != "cmp":
+                continue
+            if (key[1] == "<" and key[2] == small and key[3] == big and b) or (key[1] == "<=" and key[2] == big and key[3] == small and not b):
+                holds = True
+        n_asc += 1
+        if not holds:
+            asc_bad.append("d[%s] and d[%s] exchanged without d[%s] < d[%s]" % (m_sym, k_sym, m_sym, k_sym))
+    chk.ob("loops|jacobi|sort-ascending", not asc_bad and n_asc > 0, "the selection sort moves an eigenvalue in front of d_k only when it is "
+           "smaller (real parts compared): ascending order", body_loc(F, body), found=sorted(set(asc_bad))[:3] or "%d exchange paths under d_m < d_k" % n_asc)
+    chk.count("loop-body update statements checked", 8 * max(1, len(ts)) + 7)
